@@ -158,8 +158,11 @@ def gen_project(rng, k=None):
         a = day()
         p["vacations"] = [[a, None if pick(rng, 0.5) else a + rng.choice([1, 2, 3]) * D]]
         while pick(rng, 0.45) and len(p["vacations"]) < 3:
-            # further company holidays, declared in any order (not chronologically)
+            # further company holidays, declared in any order (not chronologically); a whole-year holiday list also names days
+            # before the project starts and after it ends
             b = day()
+            if pick(rng, 0.25):
+                b = day(rng.choice([-400, -60, -3, ndays + 2, ndays + 40, ndays + 300]))
             p["vacations"].insert(rng.randrange(len(p["vacations"]) + 1), [b, None if pick(rng, 0.6) else b + rng.choice([1, 2]) * D])
     if pick(rng, k.p_gvac):
         a = day()
